@@ -17,6 +17,8 @@ import (
 	"io"
 	"log/slog"
 	"os"
+	"os/exec"
+	"path/filepath"
 	"sort"
 	"strings"
 	"sync"
@@ -207,6 +209,10 @@ type resT struct {
 // The completion instant is taken inside the waiting goroutine. When the watchdog fires, a result that is
 // already there (or arrives within a grace period) wins: on an overloaded machine both may become ready at once.
 func await(get func() (any, error), wd time.Duration) (r resT, ok bool) {
+	return awaitG(get, wd, grace)
+}
+
+func awaitG(get func() (any, error), wd, grace time.Duration) (r resT, ok bool) {
 	ch := make(chan resT, 1)
 	go func() {
 		defer func() {
@@ -527,13 +533,21 @@ func runCase(c *Case) (viol []vh.Violation) {
 			}
 			// released: a probe sent to the reply address must land in the abyss
 			if r.ref != nil {
-				func() {
-					defer func() { _ = recover() }()
-					sys.Tell(r.ref, &probeMsg{Idx: i})
-				}()
-				ab.mu.Lock()
-				ok := ab.probes[i]
-				ab.mu.Unlock()
+				// Result() returns at close(f.done), a few instructions before rc.Unregister: the release is not
+				// time-bound, poll for a generous while (300 ms) before calling it missing
+				ok := false
+				for try := 0; try < 60 && !ok; try++ {
+					if try > 0 {
+						time.Sleep(5 * time.Millisecond)
+					}
+					func() {
+						defer func() { _ = recover() }()
+						sys.Tell(r.ref, &probeMsg{Idx: i})
+					}()
+					ab.mu.Lock()
+					ok = ab.probes[i]
+					ab.mu.Unlock()
+				}
 				if !ok {
 					c.NotReleased++
 					add("future:ask:address-not-released", fmt.Sprintf("reply address %s of completed request %d still resolves to a process", r.addr, r.seq))
@@ -558,6 +572,67 @@ func runCase(c *Case) (viol []vh.Violation) {
 	case <-time.After(3 * time.Second):
 	}
 	return viol
+}
+
+// ---------------------------------------------------------------- crash containment
+
+// A future whose timer fires before it knows its own ref dereferences a nil ProcessId in the timer goroutine
+// (Close -> rc.Unregister(f.ref, ...); repaired in /repo by 2879fd7): a panic in a foreign goroutine cannot be
+// recovered and would take the whole harness down. The cases with tiny timeouts (where such a window is reachable)
+// therefore run in a child process of this binary (env C07_ONE=<case file>); a crash of the child is reported as a
+// monitor hit with the stack.
+const tinyTimeoutMs = 5
+
+func runCaseSafe(c *Case, dir string) []vh.Violation {
+	if c.TimeoutMs > tinyTimeoutMs || os.Getenv("C07_ONE") != "" {
+		return runCase(c)
+	}
+	if dir == "" {
+		dir = os.TempDir()
+	}
+	f, err := os.CreateTemp(dir, "c07one-*.json")
+	if err != nil {
+		return runCase(c)
+	}
+	defer os.Remove(f.Name())
+	b, _ := json.Marshal(c)
+	_, _ = f.Write(b)
+	f.Close()
+	cmd := exec.Command(os.Args[0])
+	cmd.Env = append(os.Environ(), "C07_ONE="+f.Name())
+	var so, se strings.Builder
+	cmd.Stdout, cmd.Stderr = &so, &se
+	done := make(chan error, 1)
+	if err := cmd.Start(); err != nil {
+		return runCase(c)
+	}
+	go func() { done <- cmd.Wait() }()
+	select {
+	case err = <-done:
+	case <-time.After(10 * time.Minute):
+		_ = cmd.Process.Kill()
+		err = errors.New("child did not finish")
+	}
+	var res struct {
+		Case Case           `json:"case"`
+		Viol []vh.Violation `json:"monitor_hits"`
+	}
+	if err == nil && json.Unmarshal([]byte(so.String()), &res) == nil {
+		*c = res.Case
+		return res.Viol
+	}
+	trace := se.String()
+	cause := "other"
+	if strings.Contains(trace, "nil pointer dereference") && strings.Contains(trace, "ResourceController).Unregister") && strings.Contains(trace, "futureProcess") {
+		cause = "ref-unset-when-timer-fires"
+	}
+	if len(trace) > 1500 {
+		trace = trace[:1500]
+	}
+	c.Cells = []Cell{{Class: "none", Outcome: "panic", N: 1}}
+	return []vh.Violation{{Kind: "future:ask:process-crash",
+		Detail: fmt.Sprintf("route=%s k=%d n=%d beh=%s timeout=%dms: the process running the asks died (%v): %s", c.Route, c.K, c.N, c.Beh, c.TimeoutMs, err, trace),
+		Sig:    map[string]string{"route": c.Route, "beh": c.Beh, "cause": cause}}}
 }
 
 // ---------------------------------------------------------------- Coq term
@@ -641,8 +716,30 @@ func gen(rng *vh.RNG, tier string) []*Case {
 }
 
 func main() {
+	if p := os.Getenv("C07_ONE"); p != "" { // child of runCaseSafe: one case, result on stdout
+		var c Case
+		b, err := os.ReadFile(p)
+		if err != nil || json.Unmarshal(b, &c) != nil {
+			os.Exit(3)
+		}
+		viol := runCase(&c)
+		out, _ := json.Marshal(map[string]interface{}{"case": c, "monitor_hits": viol})
+		fmt.Println(string(out))
+		return
+	}
 	f := vh.ParseFlags()
 	if f.Replay != "" {
+		var lc LCase
+		vh.LoadReplayCase(f.Replay, &lc)
+		if lc.Family != "" { // a script of the sub-harness "life" (life.go)
+			viol := runLife(&lc)
+			b, _ := json.MarshalIndent(map[string]interface{}{"case": lc, "monitor_hits": viol, "attempts": 1}, "", " ")
+			fmt.Println(string(b))
+			if len(viol) > 0 {
+				os.Exit(1)
+			}
+			return
+		}
 		var c Case
 		vh.LoadReplayCase(f.Replay, &c)
 		attempts := 1
@@ -651,7 +748,7 @@ func main() {
 		}
 		var viol []vh.Violation
 		for i := 0; i < attempts && len(viol) == 0; i++ {
-			viol = runCase(&c)
+			viol = runCaseSafe(&c, filepath.Dir(f.Replay))
 		}
 		b, _ := json.MarshalIndent(map[string]interface{}{"case": c, "monitor_hits": viol, "attempts": attempts}, "", " ")
 		fmt.Println(string(b))
@@ -667,8 +764,11 @@ func main() {
 	if f.N > 0 && f.N < len(cases) {
 		cases = cases[:f.N]
 	}
+	if os.Getenv("C07_SUBS") == "life" { // development aid: only the sub-harness "life"
+		cases = nil
+	}
 	for _, c := range cases {
-		viol := runCase(c)
+		viol := runCaseSafe(c, f.Out)
 		out.Count("route", c.Route)
 		out.Count("k", fmt.Sprint(c.K))
 		out.Count("behaviour", c.Beh)
@@ -682,4 +782,14 @@ func main() {
 		out.Add(c, coqTerm(out.N(), c), nontrivial(c), viol)
 	}
 	out.Close()
+
+	// sub-harness "life": the id source over the life of an asking actor (restarts, re-creation), see life.go
+	lout := vh.NewOut(f.Out, "life", "From MV Require Import Lib.ListX Lib.Sched C07.LifeModel C07.LifeRun.", "rcase", "rmismatches", f.Seed,
+		"scripts driving ONE asker actor on a real ActorSystem: steps in {FutureAsk, typed FutureAsk to a target that answers at once / never / well before the deadline / after it, AwaitForward, anonymous child, crash (panic under an immediate Restart strategy, 0-3 times, also twice in a row), respawn (terminate + create again under the same name)}; 0-4 consumers of the id counter per incarnation, asks pending across the lifecycle steps (timeouts 500-900 ms); corpus first; non-trivial = at least one lifecycle step and at least one collision opportunity (an ask provably pending while a later incarnation issues the ask with the same ordinal); distinct by hash of script + observed addresses and outcomes")
+	lcases := genLife(vh.NewRNG(f.Seed^0xc07c07), f.Tier)
+	if f.N > 0 && f.N < len(lcases) {
+		lcases = lcases[:f.N]
+	}
+	runLifeAll(lout, lcases)
+	lout.Close()
 }
